@@ -8,6 +8,7 @@ CONSTANTS
     ColSets = {{"k"}}
     Kinds = {"time_course"}
     FailModes = {"intfail"}
+    NameSchemes = {"plain"}
     Y0s = {0}
     Y0Again = FALSE
     MaxDur = 1
